@@ -511,6 +511,18 @@ def execute(program, schedule, directory):
                     except Exception as e:  # noqa: BLE001
                         out = ops.Outcome(False, family=ops.exc_family(e),
                                           detail=f"{type(e).__name__}: {str(e)[:120]}")
+                elif op["m"] == "construct_drop":
+                    # a temporary object on the file that is finalised right away (cyclic GC)
+                    try:
+                        import gc
+                        tmp_obj = files[op["a"][0]].make(ci)
+                        tmp_obj()
+                        del tmp_obj
+                        gc.collect()
+                        out = ops.Outcome(True, None)
+                    except Exception as e:  # noqa: BLE001
+                        out = ops.Outcome(False, family=ops.exc_family(e),
+                                          detail=f"{type(e).__name__}: {str(e)[:120]}")
                 elif op["m"] == "construct":
                     try:
                         handles.append(files[op["a"][0]].make(ci))
